@@ -1356,6 +1356,70 @@ def lru_history(ctx, tables, quick):
     return reqs, impl
 
 
+def two_step_histories(ctx, cname, spec, usable, quick):
+    """`o1; queries; o2; queries` for ordered pairs of the spec's mutators against the fresh twin:
+    the second mutator acts on an object that the first one has moved away from its initial
+    state (`set_window(w); anomaly(); set_global_window(); anomaly()` — a mutator that restores
+    the initial state is invisible to `query; mutate; query` on a fresh object)"""
+    rng = ctx.rng
+    names = sorted(spec["mutators"])
+    pairs = [(a, b) for a in names for b in names]
+    cap = 16 if quick else 64
+    if len(pairs) > cap:
+        pairs = rng.sample(pairs, cap)
+    for o1, o2 in pairs:
+        try:
+            obj = quiet(spec["make"], rng)
+            quiet(spec["mutators"][o1], obj, rng)
+        except Exception:  # noqa
+            continue
+        probes = rng.sample(usable, min(len(usable), 10 if quick else 30))
+        for m, kw in probes:
+            try:
+                quiet(getattr(obj, m), **kw)
+            except Exception:  # noqa
+                pass
+        for expr in spec["summary"]:
+            try:
+                eval_summary(obj, expr)
+            except Exception:  # noqa
+                pass
+        try:
+            quiet(spec["mutators"][o2], obj, rng)
+            tw = quiet(spec["twin"], obj)
+        except Exception:  # noqa
+            continue
+        ctx.case((cname, "two-step", o1, o2), True)
+        ctx.count(f"{cname}:two-step-histories")
+        for m, kw in probes:
+            if skip_now(obj, m):
+                continue
+            try:
+                a = quiet(getattr(obj, m), **kw)
+                b = quiet(getattr(tw, m), **kw)
+            except Exception:  # noqa
+                continue
+            if not same(a, b) and not unstable(spec, obj, m, kw, b):
+                ctx.fail({"kind": "stale-query", "class": cname, "query": m, "mutator": o2,
+                          "after": o1},
+                         f"{cname}.{m}({kw}) after {o1}; queries; {o2} returns {brief(a)} but a fresh "
+                         f"object reports {brief(b)}",
+                         {"class": cname, "query": m, "args": kw, "history": [o1, "queries", o2],
+                          "observed": brief(a), "fresh": brief(b)})
+        for expr in spec["summary"]:
+            try:
+                a, b = eval_summary(obj, expr), eval_summary(tw, expr)
+            except Exception:  # noqa
+                continue
+            if not same(a, b):
+                ctx.fail({"kind": "stale-summary", "class": cname, "attribute": expr,
+                          "mutator": o2, "after": o1},
+                         f"{cname}.{expr} after {o1}; queries; {o2} is {brief(a)} but a fresh object "
+                         f"reports {brief(b)}",
+                         {"class": cname, "attribute": expr, "history": [o1, "queries", o2],
+                          "observed": brief(a), "fresh": brief(b)})
+
+
 def run(ctx):
     # several classes write files to the working directory (MI dumps): work in a scratch one
     import tempfile
@@ -1480,6 +1544,8 @@ def _run(ctx):
                              f"reports {brief(b)}",
                              {"class": cname, "attribute": expr, "mutator": oname,
                               "observed": brief(a), "fresh": brief(b)})
+        # ---- ordered pairs of mutators (round 3) ---------------------------------------------
+        two_step_histories(ctx, cname, spec, usable, quick)
         # ---- every translator-known public mutator (round 3) --------------------------------
         invokers, missing = derive_invokers(ctx, cname, spec, t)
         unexercised += missing
